@@ -374,6 +374,11 @@ impl TypeScript {
     ) -> io::Result<()> {
         // Only attempt to write a comment if there are some, otherwise we're Ok()
         if !comments.is_empty() {
+            // `*/` inside the text would end the JSDoc block early
+            let comments: Vec<String> = comments
+                .iter()
+                .map(|comment| comment.replace("*/", "*\\/"))
+                .collect();
             let comment: String = {
                 let tab_indent = "\t".repeat(indent);
                 // If there's only one comment then keep it on the same line, otherwise we'll make a nice multi-line comment
